@@ -126,13 +126,53 @@ def primary(e: ast.AST) -> Optional[str]:
             return None
 
 
+def _helper_return_params(helper: ast.FunctionDef) -> Optional[List[Optional[str]]]:
+    """For a helper that returns a tuple of names: the parameter each returned position is (a transformation of), following
+    re-bindings whose primary is the name itself (x = f(x, ...))."""
+    rets = [r for r in ast.walk(helper) if isinstance(r, ast.Return) and r.value is not None]
+    if len(rets) != 1 or not isinstance(rets[0].value, ast.Tuple):
+        return None
+    params = [a.arg for a in helper.args.args]
+    src: Dict[str, Optional[str]] = {p: p for p in params}
+    for n in ast.walk(helper):
+        if isinstance(n, ast.Assign) and len(n.targets) == 1 and isinstance(n.targets[0], ast.Name):
+            nm = n.targets[0].id
+            pr = primary(n.value)
+            if pr is None and isinstance(n.value, ast.Call) and n.value.args:
+                pr = primary(n.value.args[0])  # x = helper(x, ...): the first argument is what is transformed
+            cur = src.get(pr) if pr is not None else None
+            if nm in src and src[nm] != cur:
+                src[nm] = cur if (src[nm] == nm and cur == nm) else (src[nm] if cur == src[nm] else None)
+            elif nm not in src:
+                src[nm] = cur
+    return [src.get(e.id) if isinstance(e, ast.Name) else None for e in rets[0].value.elts]
+
+
 def attr_primaries(init: FunctionInfo) -> Dict[str, set]:
     out: Dict[str, set] = {}
+    mod_funcs = {st.name: st for st in init.module.tree.body if isinstance(st, ast.FunctionDef)}
     for n in walk_body(init):
         if isinstance(n, ast.Assign):
             for t in n.targets:
                 if isinstance(t, ast.Attribute) and isinstance(t.value, ast.Name) and t.value.id == "self":
                     out.setdefault(t.attr, set()).add(primary(n.value))
+                elif isinstance(t, (ast.Tuple, ast.List)):
+                    # self.a, self.b = x, y   /   self.a, self.b = helper(x, y) with helper returning (x', y')
+                    v = n.value
+                    per_pos: List[Optional[str]] = [None] * len(t.elts)
+                    if isinstance(v, (ast.Tuple, ast.List)) and len(v.elts) == len(t.elts):
+                        per_pos = [primary(e_) for e_ in v.elts]
+                    elif isinstance(v, ast.Call) and isinstance(v.func, ast.Name) and v.func.id in mod_funcs:
+                        h = mod_funcs[v.func.id]
+                        rp = _helper_return_params(h)
+                        hp = [a.arg for a in h.args.args]
+                        if rp is not None and len(rp) == len(t.elts):
+                            for k_, p_ in enumerate(rp):
+                                if p_ in hp and hp.index(p_) < len(v.args):
+                                    per_pos[k_] = primary(v.args[hp.index(p_)])
+                    for el, pr in zip(t.elts, per_pos):
+                        if isinstance(el, ast.Attribute) and isinstance(el.value, ast.Name) and el.value.id == "self":
+                            out.setdefault(el.attr, set()).add(pr)
     return out
 
 
